@@ -423,15 +423,20 @@ class set:
             self.config = config
             self._record = []
 
-            if arg is not None:
-                for key, value in arg.items():
-                    key = check_deprecations(key)
-                    self._assign(key.split("."), value, config)
-            if kwargs:
-                for key, value in kwargs.items():
-                    key = key.replace("__", ".")
-                    key = check_deprecations(key)
-                    self._assign(key.split("."), value, config)
+            try:
+                if arg is not None:
+                    for key, value in arg.items():
+                        key = check_deprecations(key)
+                        self._assign(key.split("."), value, config)
+                if kwargs:
+                    for key, value in kwargs.items():
+                        key = key.replace("__", ".")
+                        key = check_deprecations(key)
+                        self._assign(key.split("."), value, config)
+            except BaseException:
+                # A failing assignment must not leave the earlier ones applied
+                self.__exit__(None, None, None)
+                raise
 
     def __enter__(self):
         return self.config
@@ -482,15 +487,18 @@ class set:
         if len(keys) == 1:
             if record:
                 if key in d:
-                    self._record.append(("replace", path, d[key]))
+                    op = ("replace", path, d[key])
                 else:
-                    self._record.append(("insert", path, None))
+                    op = ("insert", path, None)
             d[key] = value
+            # Record only what has actually been done, so that a rollback is exact
+            if record:
+                self._record.append(op)
         else:
             if key not in d:
+                d[key] = {}
                 if record:
                     self._record.append(("insert", path, None))
-                d[key] = {}
                 # No need to record subsequent operations after an insert
                 record = False
             self._assign(keys[1:], value, d[key], path, record=record)
